@@ -50,6 +50,8 @@ def branch_context(node):
                 return '%s [false]' % ast.unparse(p.test)[:80]
         if isinstance(p, ast.ExceptHandler):
             return 'except %s' % (ast.unparse(p.type) if p.type is not None else '')
+        if isinstance(p, (ast.For, ast.While)) and any(child is b for b in p.orelse):
+            return 'loop-else of `%s`' % (ast.unparse(p.iter)[:50] if isinstance(p, ast.For) else ast.unparse(p.test)[:50])
         child = p
         p = getattr(p, '_parent', None)
     return ''
